@@ -160,6 +160,10 @@ def defrag_compact_cache(cache, min_percent=0.1, min_bytes=1024*1024, log_progre
             continue
 
         tmp_bundle = os.path.join(cache.cache_dir, 'tmp_defrag')
+        # leftovers of an interrupted run: the copy has to start with an empty bundle
+        for ext in ('.bundle', '.bundlx', '.lck'):
+            if os.path.exists(tmp_bundle + ext):
+                os.remove(tmp_bundle + ext)
         defb = cache.bundle_class(tmp_bundle, offset)
         stored_tiles = False
 
